@@ -80,6 +80,10 @@ Step(e) ==
     [] e.a = "Vanish"        -> Vanish(e.n)
     [] e.a = "NodeRemoveRelay" -> NodeRemoveRelay(e.n, e.cid)
     [] e.a = "NodeRemoveExit"  -> NodeRemoveExit(e.n, e.cid)
+    [] e.a = "ExpectQuietOthers" -> (\A n \in Node \ {e.n} : circ[n] = EmptyF /\ relay[n] = EmptyF /\ exit[n] = EmptyF
+                                                          /\ e.post.transports_open[n] = 0)
+                                /\ UNCHANGED <<circ, relay, exit, retryC, createdC, createC, pingC, pend, net, ctr, now,
+                                               sweepAt, pingAt, hist, budget>>
     [] e.a = "ExpectQuiet"   -> Quiet /\ (\A n \in Node : e.post.transports_open[n] = 0)
                                 /\ UNCHANGED <<circ, relay, exit, retryC, createdC, createC, pingC, pend, net, ctr, now,
                                                sweepAt, pingAt, hist, budget>>
